@@ -209,7 +209,8 @@ def culprit(text, flags, indent, failing):
     """
     which string of the document makes print / re-parse fail?  Neutralise the StringValue nodes one at a time
     (value := "x") on a fresh parse; the first one whose neutralisation removes the failure is the culprit.
-    -> "<description|value>/<block|quoted>", "several-strings" or "not-a-string"
+    -> "<description|value>/<block|quoted>", "several-strings", "definition:<Kind>" (that definition alone fails),
+       "definitions-interact:<Kind>-after-<Kind>" (each definition alone is fine)
     """
     from py_gql.lang import parse, print_ast
     from mc.ref import visit as RV
@@ -239,7 +240,20 @@ def culprit(text, flags, indent, failing):
     for P in RV.positions(t):
         if P.kind == "StringValue":
             P.node.value = "x"
-    return "several-strings" if not fails(t) else "not-a-string"
+    if not fails(t):
+        return "several-strings"
+    # not a string: which definition?  each one alone, then growing prefixes of the document
+    t = parse(text, **flags)
+    for d in t.definitions:
+        if fails(type(t)(definitions=[d])):
+            return "definition:%s" % type(d).__name__
+    for k in range(2, len(t.definitions) + 1):
+        if fails(type(t)(definitions=t.definitions[:k])):
+            prev = type(t.definitions[k - 2]).__name__
+            if prev not in ("OperationDefinition", "FragmentDefinition"):
+                prev = "type-system-definition"
+            return "definitions-interact:%s-after-%s" % (type(t.definitions[k - 1]).__name__, prev)
+    return "unexplained"
 
 
 def first_diff(a, b, ctx="-"):
